@@ -7,13 +7,40 @@ import core
 
 def scen_check(module, level, rule, min_obs_quick=None, min_obs_thorough=None, config="asan",
                assumptions=None, exhaustive_thorough=False):
+    """module: engine module name, or a list of (module, config) pairs whose results are merged."""
+    mods = module if isinstance(module, list) else [(module, config)]
+
     def run(prop, tier, seed, t0, replay):
+        import os
         vchild = build.build_vchild()
-        scen = build.build_scen(config)
-        replay_cases = None
-        if replay:
-            replay_cases = json.load(open(replay))["cases"]
-        total, viols = core.run_engine(module, prop, tier, seed, scen, vchild, replay_cases)
+        os.environ["VERIF_VCHILD"] = vchild
+        total = None
+        viols = []
+        replay_doc = json.load(open(replay)) if replay else None
+        for mod, cfg in mods:
+            scen = build.build_scen(cfg)
+            os.environ["VERIF_SCEN_ND"] = scen
+            replay_cases = None
+            if replay_doc is not None:
+                replay_cases = [c for c in replay_doc["cases"]]
+                if replay_doc.get("module") and replay_doc["module"] != mod:
+                    continue
+            t, v = core.run_engine(mod, prop, tier, seed, scen, vchild, replay_cases)
+            for x in v:
+                x[3]["module"] = mod
+            viols.extend(v)
+            if total is None:
+                total = t
+            else:
+                total["evaluations"] += t["evaluations"]
+                total["inconclusive"] += t["inconclusive"]
+                total["nontrivial_sigs"].update(t["nontrivial_sigs"])
+                total["samples"].extend(t["samples"])
+                for k, val in t["obs"].items():
+                    if isinstance(val, set):
+                        total["obs"].setdefault(k, set()).update(val)
+                    else:
+                        total["obs"][k] = total["obs"].get(k, 0) + val
         mo = None if replay else (min_obs_quick if tier == "quick" else (min_obs_thorough or min_obs_quick))
         return core.conclude(prop, tier, seed, level, total, viols, t0, rule, min_obs=mo,
                              assumptions=assumptions,
@@ -36,10 +63,11 @@ CHECKS = {
         "(ending kind, code/signal class, op-sequence shape)",
         {"status_returns": 1500, "stable_rechecks": 500, "codes_seen": 250}, assumptions=KERNEL_TRUST),
     "C06": scen_check(
-        "eng_life", "exploration",
-        "union of the life-engine workloads (status histories, stop grids, destroy states); every kill/waitpid "
-        "the library issues is checked against the set of live, unreaped children it forked; non-trivial = at "
-        "least one kill or waitpid record observed",
+        [("eng_life", "asan"), ("eng_fault", "asan-nd")], "fault_enumeration",
+        "union of the life-engine workloads (status histories, stop grids, destroy states) plus the complete start-time "
+        "fault campaign of C04 followed by pid/start/terminate/kill/wait/terminate/kill/destroy; every kill/waitpid "
+        "the library issues is checked against the set of live, unreaped children it forked (signals to pid<=0 are "
+        "blocked, not forwarded); non-trivial = at least one kill or waitpid record observed",
         {"kill_records": 500, "waitpid_records": 500, "post_reap_signal_calls": 50}, assumptions=KERNEL_TRUST),
     "C07": scen_check(
         "eng_life", "exploration",
@@ -99,6 +127,29 @@ CHECKS = {
         "non-trivial = an I/O call or an input start was checked",
         {"nb_calls": 1500, "blocking_calls": 500, "blocking_waits": 50, "input_starts": 100,
          "input_failed_starts": 20, "nonblock_flag_seen": 1000}, assumptions=KERNEL_TRUST),
+    "C04": scen_check(
+        "eng_fault", "fault_enumeration",
+        "phase 1 traces a fault-free start of each of 16 option scenarios and reads off every libc call site (side, function, "
+        "index) on both sides of fork; phase 2 injects one plausible errno (plus EINTR where interruptible) at every site, and "
+        "pairs of sites (quick: 130 sampled pairs per scenario, thorough: 2600); plus natural causes (missing/non-executable/"
+        "directory/dangling-interpreter/over-long/empty program, bad working directory, unusable redirect path, closed handle, "
+        "RLIMIT_NOFILE swept 3..21); after the start: child census, reproc_pid, second start, helper's hello; "
+        "non-trivial = a planned fault fired or a natural cause applied; distinct = (scenario, fault plan)",
+        {"faults_fired": 3000, "sites": 2000, "failed_starts": 1500, "restarts_checked": 1500, "natural_checked": 50},
+        config="asan-nd", assumptions=KERNEL_TRUST + ["faults are injected at the libc boundary (a call returns -1/errno without being performed; close is performed first; waitpid/ECHILD is performed first)"]),
+    "C05": scen_check(
+        "eng_fault", "fault_enumeration",
+        "same campaign as C04 with the ownership ledger as oracle: every pipe/open/dup the library makes is owned, every "
+        "close/free must hit an owned object exactly once, at the end of start/pid/start/terminate/kill/wait/destroy nothing "
+        "may be owned, the /proc/self/fd table must equal the one before reproc_new, no child of the runner may be left and "
+        "every user-supplied handle/FILE/standard stream must still be open; non-trivial = fault fired or fault-free scenario",
+        {"ledger_checks": 3000, "faults_fired": 3000, "sites": 2000}, config="asan-nd", assumptions=KERNEL_TRUST),
+    "C12": scen_check(
+        "eng_fault", "fault_enumeration",
+        "same campaign with random initial signal masks and dispositions (default/ignore/handler for SIGINT, SIGUSR1, SIGUSR2): "
+        "sigmask, 64-entry sigaction table, cwd and environ are snapshotted immediately before and after every reproc_start "
+        "return; the helper reports SigBlk/SigIgn as it found them at exec; faults in the restoring sigmask call are exempt",
+        {"caller_checks": 5000, "child_sig_checks": 2000, "faults_fired": 3000}, config="asan-nd", assumptions=KERNEL_TRUST),
 }
 
 
@@ -110,7 +161,7 @@ MANIFEST_TEXT = {
             "histories on a deterministic virtual timeline; stability, immediacy and single reap are read off the "
             "libc trace. Held-on-what-was-observed, not a proof.",
             "kernel wait/signal semantics trusted; POSIX back-end only", "DESIGN.md 3/C01"),
-    "C06": ("life", "runtime monitor: kill/waitpid arguments checked against the live-children set at the libc boundary",
+    "C06": ("life", "runtime monitor: kill/waitpid arguments checked against the live-children set at the libc boundary, incl. after every start-time fault",
             "Every kill and waitpid the library issues, in every life-engine history and after start-time faults, is checked "
             "online against the set of children it forked and has not reaped; signals to pid<=0 or foreign pids are "
             "blocked and reported.", "interposition by symbol (import audit guards it); POSIX only", "DESIGN.md 3/C06"),
@@ -153,10 +204,26 @@ MANIFEST_TEXT = {
             "on that stream, blocking writes only until the child made room.",
             "how much room a partial child read makes for a blocked write is kernel page arithmetic: only 'returned at a child event' is asserted",
             "DESIGN.md 3/C17"),
+    "C04": ("fault", "fault injection at every traced libc call site (singles + pairs), both sides of fork; outcome oracle",
+            "Call sites are discovered by tracing each scenario, not listed by hand, so the enumeration follows the code. After each "
+            "faulted start the monitor checks the two consistent outcomes only: failure with the real errno, no child left, pid EINVAL, "
+            "handle restartable - or success with a positive forked pid whose program said hello.",
+            "one plausible errno per call plus EINTR; faults at the libc boundary only; build with NDEBUG (the shipped configuration) so injected close/sigmask failures reach release behaviour",
+            "DESIGN.md 3/C04"),
+    "C05": ("fault", "ownership ledger (fd + heap) at the libc boundary + /proc/self/fd snapshot + child census, under fault enumeration",
+            "Every descriptor and allocation the library acquires is entered in a ledger inside the interposed call; closes and frees "
+            "must hit owned objects exactly once; after destroy the ledger, the descriptor table and the child census must be back "
+            "to the state before reproc_new and user-supplied objects must still be open - on every single and sampled pairwise fault path.",
+            "parent side only (the forked child legitimately closes everything before exec)", "DESIGN.md 3/C05"),
+    "C12": ("fault", "before/after snapshots of sigmask, sigaction table, cwd, environ around start + child's SigBlk/SigIgn, under fault enumeration",
+            "Caller state is snapshotted immediately around every reproc_start return (success and every faulted failure path) and must be "
+            "identical; the started program reports the signal mask and ignore set it was exec'ed with.",
+            "a fault injected into the restoring sigmask call itself is exempt, as the property states", "DESIGN.md 3/C12"),
 }
 
-ENGINE_PATHS = {"life": "eng_life.py", "poll": "eng_poll.py", "io": "eng_io.py"}
+ENGINE_PATHS = {"life": "eng_life.py", "poll": "eng_poll.py", "io": "eng_io.py", "fault": "eng_fault.py"}
 ENGINE_KINDS = {
+    "fault": "fault injector in the interposition layer; call sites discovered by tracing; scenario runner as vehicle",
     "io": "scenario runner on a virtual clock; position-coded streams; recording sinks; ground-truth stream model",
     "poll": "scenario runner on a virtual clock; ground-truth stream state model (lib/model_io.py)",
     "life": "scenario runner (src/scen.c) on a virtual clock with scripted helper child; python reference models",
